@@ -277,69 +277,3 @@ def zigzag_alternation(zz):
     if drawn[0] != len(seq):
         return False, "a drawn group is not yielded", loop
     return True, "groups 0..%d of the LevelOrderGroupIter over the start node yielded unchanged/reversed alternately (abstract run over the parity state)" % (len(seq) - 1), loop
-
-
-def _parity_idiom(zz, loop, src, classify_with=None):
-    """for [i,] group in [enumerate(]<source>[)]: yield reversed(group) if c % 2 else group, c from an even constant, +1 per iteration"""
-    it = loop.iter
-    counter = None
-    gname = None
-    enum = False
-    if isinstance(it, ast.Call) and norm(it.func) == "enumerate" and it.args and (it.args[0] is src or _assigned_from(zz, it.args[0], src)):
-        if len(it.args) > 1 or it.keywords:
-            st = it.args[1] if len(it.args) > 1 else it.keywords[0].value
-            if not (isinstance(st, ast.Constant) and isinstance(st.value, int) and st.value % 2 == 0):
-                return False
-        if isinstance(loop.target, ast.Tuple) and len(loop.target.elts) == 2 and all(isinstance(e, ast.Name) for e in loop.target.elts):
-            counter, gname, enum = loop.target.elts[0].id, loop.target.elts[1].id, True
-    elif (it is src or _assigned_from(zz, it, src)) and isinstance(loop.target, ast.Name):
-        gname = loop.target.id
-    if gname is None:
-        return False
-    ys = [y for st in loop.body for y in ast.walk(st) if isinstance(y, ast.Yield)]
-    if len(ys) != 1 or not isinstance(ys[0].value, ast.IfExp):
-        return False
-    v = ys[0].value
-    t = v.test
-    odd_when_true = None
-    if isinstance(t, ast.BinOp) and isinstance(t.op, (ast.Mod, ast.BitAnd)) and isinstance(t.left, ast.Name) and isinstance(t.right, ast.Constant) \
-            and t.right.value == (2 if isinstance(t.op, ast.Mod) else 1):
-        counter_used, odd_when_true = t.left.id, True
-    elif isinstance(t, ast.Compare) and len(t.ops) == 1 and isinstance(t.left, ast.BinOp) and isinstance(t.left.op, ast.Mod) \
-            and isinstance(t.left.left, ast.Name) and isinstance(t.left.right, ast.Constant) and t.left.right.value == 2 \
-            and isinstance(t.comparators[0], ast.Constant) and t.comparators[0].value in (0, 1) and isinstance(t.ops[0], (ast.Eq, ast.NotEq)):
-        counter_used = t.left.left.id
-        odd_when_true = (t.comparators[0].value == 1) == isinstance(t.ops[0], ast.Eq)
-    else:
-        return False
-
-    def is_rev(e):
-        return (isinstance(e, ast.Call) and norm(e.func) in ("tuple", "list") and len(e.args) == 1 and isinstance(e.args[0], ast.Call)
-                and norm(e.args[0].func) == "reversed" and norm(e.args[0].args[0]) == gname) or norm(e) == "%s[::-1]" % gname
-
-    def is_plain(e):
-        return norm(e) == gname or (isinstance(e, ast.Call) and norm(e.func) in ("tuple", "list") and len(e.args) == 1 and norm(e.args[0]) == gname)
-    rev, plain = (v.body, v.orelse) if odd_when_true else (v.orelse, v.body)
-    if not (is_rev(rev) and is_plain(plain)):
-        return False
-    if enum:
-        return counter_used == counter
-    # explicit counter: even constant before the loop, += 1 exactly once per iteration, no other assignment
-    inits = [n for n in walk_own(zz.node) if isinstance(n, ast.Assign) and any(isinstance(x, ast.Name) and x.id == counter_used for x in n.targets)]
-    incs = [n for n in walk_own(zz.node) if isinstance(n, ast.AugAssign) and isinstance(n.target, ast.Name) and n.target.id == counter_used]
-    if len(inits) != 1 or len(incs) != 1:
-        return False
-    if not (isinstance(inits[0].value, ast.Constant) and isinstance(inits[0].value.value, int) and not isinstance(inits[0].value.value, bool)
-            and inits[0].value.value % 2 == 0):
-        return False
-    inc = incs[0]
-    if not (isinstance(inc.op, ast.Add) and isinstance(inc.value, ast.Constant) and inc.value.value == 1 and inc in loop.body):
-        return False
-    return True
-
-
-def _assigned_from(func, e, src):
-    if not isinstance(e, ast.Name):
-        return False
-    return any(isinstance(n, ast.Assign) and n.value is src and any(isinstance(t, ast.Name) and t.id == e.id for t in n.targets)
-               for n in walk_own(func.node))
